@@ -82,7 +82,7 @@ def obligations(tier: str, seed: int):
     for g in ng:
         params = {"dialect": g[0], "mode": "number", "minlen": 1, "maxlen": nlen}
         key = f"number:{g[0] or 'base'}:len1-{nlen}"
-        if tier == "quick" and ng.index(g) % 2 != seed % 2:
+        if tier == "quick" and ng.index(g) % 3 != seed % 3:
             continue
         obls.append(Obl(key=key, harness="h_time.py", params=params, cond_timeout=150 if tier == "quick" else 600, path_timeout=15,
                         desc={"group": g, "unit": "_scan_number -> Literal.number -> literal_sql -> _scan_number", "len": [1, nlen]},
